@@ -358,3 +358,133 @@ Proof.
     with ((R_of (fold_prod l) - rprod l) - (R_of (fold_prod l') - rprod l))%R by ring.
   eapply Rle_trans; [apply Rabs_triang|]. rewrite Rabs_Ropp. lra.
 Qed.
+
+(* ================================================================== avg *)
+Lemma fold_finv l : forall acc, finv acc = true -> forallb finv l = true ->
+  partial_finite acc l = true -> finv (fold_left nadd l acc) = true.
+Proof.
+  induction l as [|x l IH]; intros acc Fa Fl Pf; [exact Fa|].
+  cbn [forallb] in Fl. apply andb_true_iff in Fl. destruct Fl as [Fx Fl].
+  cbn [partial_finite] in Pf. apply andb_true_iff in Pf. destruct Pf as [Fs Pf].
+  cbn [fold_left]. apply IH; auto. now destruct (nadd_finite_correct acc x Fa Fx Fs).
+Qed.
+
+Lemma finv_nnzero : finv nnzero = true.
+Proof. reflexivity. Qed.
+
+Lemma finv_abs_lt_emax x : finv x = true -> (Rabs (R_of x) < bpow radix2 emax)%R.
+Proof.
+  unfold finv. rewrite andb_true_iff. intros [V _].
+  rewrite <- (B2SF_SF2B prec emax x V), SF2R_B2SF. apply abs_B2R_lt_emax.
+Qed.
+
+(* s / (n as f64) for a finite s and 1 <= n <= 2^53: correctly rounded, with the standard error
+   decomposition (relative u, or absolute 2^-1075 in the subnormal range) *)
+Lemma ndiv_count_error s n : finv s = true -> 1 <= n <= 2^53 ->
+  exists eps eta, (Rabs eps <= u)%R /\ (Rabs eta <= bpow radix2 (-1075))%R /\
+    R_of (ndiv s (num_of_Z n)) = (R_of s / IZR n * (1 + eps) + eta)%R.
+Proof.
+  intros Fs Hn.
+  destruct (num_of_Z_correct n ltac:(lia)) as (Vn & Rn & Fn).
+  assert (Hrel : forall x, exists eps eta, (Rabs eps <= u)%R /\ (Rabs eta <= bpow radix2 (-1075))%R /\
+             rnd x = (x * (1 + eps) + eta)%R).
+  { intros x. destruct (error_N_FLT radix2 (SpecFloat.emin prec emax) prec ltac:(reflexivity)
+                          (fun z => negb (Z.even z)) x) as (eps & eta & A & B & _ & D).
+    exists eps, eta. split; [exact A|split; [|exact D]].
+    eapply Rle_trans; [exact B|]. change (/2)%R with (bpow radix2 (-1)). rewrite <- bpow_plus.
+    apply bpow_le. vm_compute. discriminate. }
+  assert (N1 : (1 <= IZR n)%R) by (apply IZR_le; lia).
+  destruct (num_of_Z n) as [sn|sn| |sn mn en] eqn:En; try contradiction.
+  { cbn in Rn. assert (IZR n = 0)%R by congruence. lra. }
+  destruct sn; [contradiction|].
+  destruct s as [ss|ss| |ss ms es];
+    try (unfold finv in Fs; cbn in Fs; rewrite ?andb_false_r in Fs; discriminate).
+  - (* s = +-0 *)
+    exists 0%R, 0%R. rewrite !Rabs_R0. split; [apply u_pos|split; [apply bpow_ge_0|]].
+    cbn. lra.
+  - destruct (ndiv_correct ss ms es false mn en) as (_ & E & _).
+    + rewrite Rn.
+      apply Rle_lt_trans with (Rabs (R_of (S754_finite ss ms es))); [|now apply finv_abs_lt_emax].
+      apply abs_round_le_generic; [apply fexp_correct; reflexivity|apply valid_rnd_N| |].
+      * apply generic_format_abs. now apply finv_format.
+      * unfold Rdiv. rewrite Rabs_mult. rewrite <- (Rmult_1_r (Rabs (R_of (S754_finite ss ms es)))) at 2.
+        apply Rmult_le_compat_l; [apply Rabs_pos|]. rewrite Rabs_inv.
+        rewrite Rabs_pos_eq by lra. rewrite <- Rinv_1. apply Rinv_le_contravar; lra.
+    + rewrite E, Rn. destruct (Hrel (R_of (S754_finite ss ms es) / IZR n)%R) as (eps & eta & A & B & D).
+      exists eps, eta. auto.
+Qed.
+
+(* avg is within ((1+u)^n - 1) * mean|x_i| + 2^-1075 of the exact mean *)
+Theorem avg_rounding_bound l : l <> [] -> Z.of_nat (length l) <= 2^53 ->
+  forallb finv l = true -> partial_finite nnzero l = true ->
+  (Rabs (R_of (ndiv (fold_sum l) (num_of_Z (Z.of_nat (length l)))) - rsum l / INR (length l))
+   <= ((1 + u) ^ length l - 1) * (rabs_sum l / INR (length l)) + bpow radix2 (-1075))%R.
+Proof.
+  intros Hne Hlen Fl Pf.
+  assert (Hn : 1 <= Z.of_nat (length l) <= 2^53) by (destruct l; [contradiction|cbn [length] in *; lia]).
+  assert (Fs : finv (fold_sum l) = true) by (apply fold_finv; auto).
+  destruct (ndiv_count_error (fold_sum l) _ Fs Hn) as (eps & eta & He & Ht & E).
+  assert (B := sum_rounding_bound l Hne Fl Pf).
+  rewrite E, <- INR_IZR_INZ.
+  set (n := INR (length l)). set (s := R_of (fold_sum l)) in *. set (Sx := rsum l) in *.
+  set (T := rabs_sum l) in *. set (k := length l) in *.
+  assert (Nn : (1 <= n)%R).
+  { unfold n. change 1%R with (INR 1). apply le_INR. destruct l; [contradiction|cbn; lia]. }
+  assert (Pu := u_pos). assert (P1 := pow_ge_1 (k - 1)). assert (T0 := rabs_sum_nonneg l). fold T in T0.
+  assert (ST : (Rabs Sx <= T)%R).
+  { unfold Sx, T. clear. induction l as [|a l IH]; [cbn; rewrite Rabs_R0; lra|].
+    change (rsum (a :: l)) with (R_of a + rsum l)%R.
+    change (rabs_sum (a :: l)) with (Rabs (R_of a) + rabs_sum l)%R.
+    eapply Rle_trans; [apply Rabs_triang|]. lra. }
+  assert (Pk : ((1 + u) ^ k = (1 + u) * (1 + u) ^ (k - 1))%R).
+  { unfold k. destruct l; [contradiction|]. cbn [length]. replace (S (length l) - 1)%nat with (length l) by lia.
+    reflexivity. }
+  replace (s / n * (1 + eps) + eta - Sx / n)%R
+    with ((s - Sx) / n * (1 + eps) + eps * (Sx / n) + eta)%R by (field; lra).
+  assert (In0 : (0 < / n)%R) by (apply Rinv_0_lt_compat; lra).
+  assert (H1 : (Rabs (1 + eps) <= 1 + u)%R).
+  { eapply Rle_trans; [apply Rabs_triang|]. rewrite Rabs_R1. lra. }
+  assert (A1 : (Rabs ((s - Sx) / n * (1 + eps)) <= ((1 + u) ^ (k - 1) - 1) * T / n * (1 + u))%R).
+  { rewrite Rabs_mult. apply Rmult_le_compat; try apply Rabs_pos; [|exact H1].
+    unfold Rdiv. rewrite Rabs_mult, (Rabs_pos_eq (/ n)) by lra.
+    apply Rmult_le_compat_r; [lra|exact B]. }
+  assert (A2 : (Rabs (eps * (Sx / n)) <= u * (T / n))%R).
+  { rewrite Rabs_mult. apply Rmult_le_compat; try apply Rabs_pos; [exact He|].
+    unfold Rdiv. rewrite Rabs_mult, (Rabs_pos_eq (/ n)) by lra. apply Rmult_le_compat_r; lra. }
+  eapply Rle_trans; [apply Rabs_triang|]. eapply Rle_trans; [apply Rplus_le_compat_r, Rabs_triang|].
+  rewrite Pk.
+  replace (((1 + u) * (1 + u) ^ (k - 1) - 1) * (T / n))%R
+    with (((1 + u) ^ (k - 1) - 1) * T / n * (1 + u) + u * (T / n))%R by (field; lra).
+  lra.
+Qed.
+
+Definition avg_of (l : list num) : num := ndiv (fold_sum l) (num_of_Z (Z.of_nat (length l))).
+
+Theorem avg_perm_rounding l l' : Permutation.Permutation l l' -> l <> [] ->
+  Z.of_nat (length l) <= 2^53 ->
+  forallb finv l = true -> partial_finite nnzero l = true -> partial_finite nnzero l' = true ->
+  (Rabs (R_of (avg_of l) - R_of (avg_of l'))
+   <= 2 * (((1 + u) ^ length l - 1) * (rabs_sum l / INR (length l)) + bpow radix2 (-1075)))%R.
+Proof.
+  intros P Hne Hlen Fl Pf Pf'.
+  assert (Hne' : l' <> []).
+  { intros ->. apply Permutation.Permutation_sym, Permutation.Permutation_nil in P. auto. }
+  assert (Fl' : forallb finv l' = true).
+  { rewrite forallb_forall in *. intros x Hx. apply Fl.
+    eapply Permutation.Permutation_in; [apply Permutation.Permutation_sym|]; eauto. }
+  assert (L := Permutation.Permutation_length P).
+  assert (B := avg_rounding_bound l Hne Hlen Fl Pf).
+  assert (B' := avg_rounding_bound l' Hne' ltac:(rewrite <- L; exact Hlen) Fl' Pf').
+  rewrite <- (rsum_perm _ _ P), <- (rabs_sum_perm _ _ P), <- L in B'.
+  unfold avg_of. rewrite <- L.
+  set (a := R_of (ndiv (fold_sum l) _)) in *. set (a' := R_of (ndiv (fold_sum l') _)) in *.
+  set (m := (rsum l / INR (length l))%R) in *.
+  replace (a - a')%R with ((a - m) - (a' - m))%R by ring.
+  eapply Rle_trans; [apply Rabs_triang|]. rewrite Rabs_Ropp. lra.
+Qed.
+
+Lemma avg_of_is_avg l : l <> [] -> bi_avg (nums l) = Ok (VNum (avg_of l)).
+Proof.
+  intros H. destruct (avg_is_sum_div_count l H) as (s & A & B & _).
+  destruct (sum_is_fold l H) as [_ C]. rewrite C in A. injection A as <-. exact B.
+Qed.
